@@ -897,8 +897,16 @@ where
 
         // Build initial state.
         // The initial contents count towards the size limit.
+        // A subscription whose initial value has been taken out does not carry the contents anymore.
+        let consumed = matches!(self.initial, VecInitialValue::Value(_)) && self.complete;
         let initial = self.take_initial().unwrap_or_default();
-        let error = if initial.len() > max_size { Some(RecvError::MaxSizeExceeded(max_size)) } else { None };
+        let error = if consumed {
+            Some(RecvError::Lagged)
+        } else if initial.len() > max_size {
+            Some(RecvError::MaxSizeExceeded(max_size))
+        } else {
+            None
+        };
         let failed = error.is_some();
         let inner = Arc::new(RwLock::new(Some(MirroredVecInner {
             v: initial,
